@@ -453,6 +453,7 @@ bus_driver_handle_hello (DBusConnection *connection,
   DBusError tmp_error;
   int limit;
   const char *limit_name;
+  dbus_bool_t completed = FALSE;
 
   _DBUS_ASSERT_ERROR_IS_CLEAR (error);
 
@@ -508,6 +509,8 @@ bus_driver_handle_hello (DBusConnection *connection,
       goto out_0;
     }
 
+  completed = TRUE;
+
   if (!dbus_message_set_sender (message,
                                 bus_connection_get_name (connection)))
     {
@@ -528,6 +531,12 @@ bus_driver_handle_hello (DBusConnection *connection,
   retval = TRUE;
 
  out_0:
+  /* If we failed after making the connection active, make it inactive
+   * again: otherwise it would be left without a service for its unique
+   * name, and unable to retry ("Already handled an Hello message"). */
+  if (!retval && completed)
+    bus_connection_uncomplete (connection);
+
   _dbus_string_free (&unique_name);
   return retval;
 }
